@@ -180,7 +180,7 @@ func (ws *WALStorage) Append(entries []myraft.Entry) error {
 	ws.mu.Lock()
 	defer ws.mu.Unlock()
 
-	infos, err := ws.wal.AppendRecords(wal.Record{
+	infos, err := ws.appendDurable(wal.Record{
 		Type:    wal.RecordTypeRaftEntry,
 		Payload: payload,
 	})
@@ -217,7 +217,7 @@ func (ws *WALStorage) ApplySnapshot(snap myraft.Snapshot) error {
 	ws.mu.Lock()
 	defer ws.mu.Unlock()
 
-	infos, err := ws.wal.AppendRecords(wal.Record{
+	infos, err := ws.appendDurable(wal.Record{
 		Type:    wal.RecordTypeRaftSnapshot,
 		Payload: payload,
 	})
@@ -288,7 +288,7 @@ func (ws *WALStorage) SetHardState(st myraft.HardState) error {
 	ws.mu.Lock()
 	defer ws.mu.Unlock()
 
-	infos, err := ws.wal.AppendRecords(wal.Record{
+	infos, err := ws.appendDurable(wal.Record{
 		Type:    wal.RecordTypeRaftState,
 		Payload: payload,
 	})
@@ -353,6 +353,20 @@ func (ws *WALStorage) Snapshot() (myraft.Snapshot, error) {
 }
 
 // Internal helpers ----------------------------------------------------------
+
+// appendDurable appends one typed record and flushes+syncs the WAL before the
+// record's position is published through the manifest pointer and before the
+// caller (the peer's Ready loop) may send messages that depend on it.
+func (ws *WALStorage) appendDurable(rec wal.Record) ([]wal.EntryInfo, error) {
+	infos, err := ws.wal.AppendRecords(rec)
+	if err != nil {
+		return nil, err
+	}
+	if err := ws.wal.Sync(); err != nil {
+		return nil, err
+	}
+	return infos, nil
+}
 
 func (ws *WALStorage) updatePointer(ptr manifest.RaftLogPointer) error {
 	if ptr.Segment == 0 {
